@@ -43,6 +43,15 @@ def cell_class(text):
 
 
 def run_csv(chk, spec, raw_text=None):
+	if spec.get("field_limit"):
+		# the program raised the csv module's process-wide field size limit before reading (the documented way to read long cells): the read - and the
+		# reference parse - run under the limit in force NOW, which is put back afterwards
+		import csv as _csv
+		old = _csv.field_size_limit(spec["field_limit"])
+		try:
+			return run_csv(chk, {k: v for k, v in spec.items() if k != "field_limit"}, raw_text)
+		finally:
+			_csv.field_size_limit(old)
 	if raw_text is not None:
 		import io
 		import os
@@ -291,7 +300,7 @@ def run_reuse(chk, spec):
 
 RUNNERS = {"csv": run_csv, "raw": run_raw, "reuse": run_reuse}
 
-EXTRA_CELLS = ["a\x0bb", "a\x0cb", "1\x0c2", "a\x1cb", "a\x1db", "a\x1eb", "a\x85b", "a\u2028b", "a\u2029b", "crlf\r\ninside", "old\rmac", "-2_5", "1__0", "_1", "1_", "+.5e-3", "0b1", "1e400", "NaN", "  -inf ", "٣", "１２", "1 000", " ", "x "]
+EXTRA_CELLS = ["ab\x00cd", "\x00", "12\x00", " q\x00 ", "\x001", "a\x0bb", "a\x0cb", "1\x0c2", "a\x1cb", "a\x1db", "a\x1eb", "a\x85b", "a\u2028b", "a\u2029b", "crlf\r\ninside", "old\rmac", "-2_5", "1__0", "_1", "1_", "+.5e-3", "0b1", "1e400", "NaN", "  -inf ", "٣", "１２", "1 000", " ", "x "]
 
 
 def run(chk):
@@ -355,6 +364,11 @@ def run(chk):
 		for via in ("fileobj", "path"):
 			chk.case("csv", {"op": "csv", "header": hdr, "grid": grid, "delimiter": ",", "has_header": True, "ncols": len(hdr), "via": via, "pattern": "default-name-lookalikes"}, "csv-default-name-lookalikes")
 			chk.case("csv", {"op": "csv", "header": hdr, "grid": [], "delimiter": ",", "has_header": True, "ncols": len(hdr), "via": via, "pattern": "header-only"}, "csv-default-name-lookalikes")
+	# cells longer than the csv module's default field limit, read after the program raised that limit
+	for size in (131073, 200000):
+		for via in ("fileobj", "path"):
+			for limit in (10 ** 6, 2 ** 31 - 1):
+				chk.case("csv", {"op": "csv", "header": ["a", "b"], "grid": [["1", "x" * size], ["y" * size, "2"]], "delimiter": ",", "has_header": True, "ncols": 2, "via": via, "pattern": "long-field", "field_limit": limit}, "csv-long-field-limit-raised")
 	# more records than any batch size, a column that is blank for the first several thousand of them
 	for nrows, first_value_at in ((5000, 4200), (9000, 8200), (4097, 4096)):
 		grid = [["" if r < first_value_at else str(r), "s" if r % 2 else "", str(r)] for r in range(nrows)]
